@@ -338,10 +338,13 @@ def run(ctx):
         for words in argv_cases:
             seen = []
 
-            def fake_build_tool(options, args, seen=seen):
+            def fake_build_command_list(factory, args, *a, seen=seen, **k):
                 seen.append(list(args))
                 raise SystemExit(0)
-            with mock.patch.object(cmd, "build_tool", fake_build_tool), mock.patch.object(cmd, "setup_logging", lambda o: None), \
+            # the real option parser AND the real build_tool run; what reaches the compiler is recorded.  Standard input holds a
+            # script of its own: it must be read only for the single word "-"
+            with mock.patch.object(cmd, "build_command_list", fake_build_command_list), mock.patch.object(cmd, "setup_logging", lambda o: None), \
+                    mock.patch.object(cmd, "factory_connect", lambda *a: None), mock.patch.object(sys, "stdin", io.StringIO("key enter\n")), \
                     mock.patch.object(cmd, "reactor", mock.Mock()), mock.patch.object(sys, "argv", ["vncdo", "-s", "h"] + list(words)), \
                     mock.patch.object(sys, "stderr", io.StringIO()):
                 try:
@@ -355,8 +358,8 @@ def run(ctx):
             ctx.case(None, key=("argv", repr(words)))
             if seen != [list(words)]:
                 ctx.violate("argv-not-the-script", {"input": {"command_line": ["vncdo", "-s", "h"] + list(words)},
-                                                    "observed": "the script handed to build_tool is %r (%s); written: %r" % (seen, res, list(words)),
-                                                    "how": "the real vncdo() option parser with build_tool replaced by a recorder"})
+                                                    "observed": "the script handed to the compiler is %r (%s); written: %r" % (seen, res, list(words)),
+                                                    "how": "the real vncdo() option parser and build_tool, with build_command_list replaced by a recorder and a decoy script on stdin"})
     finally:
         os.chdir(cwd)
         shutil.rmtree(tmp, ignore_errors=True)
